@@ -103,7 +103,8 @@ def check_new_work_queued(ctx, f, s_p):
 
 def check_pool_choice(ctx, f, s_p):
     P = ctx.P
-    h = P.fn(PRIO, "get_pool_with_max_avail_ram")
+    from ..util import dealias
+    h = dealias(P.fn(PRIO, "get_pool_with_max_avail_ram"))     # `stats = pool_stats[i]`, `avail_ram = stats["avail_ram"]` written out
     ctx.touch(h)
     g = cfg_of(h, subst_env=False)
     hp = h.params()
